@@ -1,7 +1,8 @@
 #!/bin/bash
-# usage: confirm_seed.sh <id>   -- re-confirms a sub-agent's seeded change inside its scratch worktree /tmp/seed_<id>
+# usage: confirm_seed.sh <id> [worktree]  (log /tmp/confirm_<id>.log; round-2 seeds: confirm_seed.sh C03-r2 /tmp/seed2_C03)
+#   -- re-confirms a sub-agent's seeded change inside its scratch worktree /tmp/seed_<id>
 # (patch applies and compiles; demonstration fails with it and passes without it; the existing test suite passes with it)
-id=$1; wt=/tmp/seed_$id; out=$wt/_seed_out; log=/tmp/confirm_$id.log
+id=$1; wt=${2:-/tmp/seed_$id}; out=$wt/_seed_out; log=/tmp/confirm_$id.log
 cd $wt || exit 2
 {
 echo "== confirm $id $(date)"
